@@ -259,12 +259,20 @@ def populate_stage(B, st, sp, skip=()):
             st.set_T(horizon_arg(B, h["T"]))
         if "t0" in h:
             st.set_t0(horizon_arg(B, h["t0"]))
-    for name, exprs in sp.get("der", []):
-        d = B.decl[name]
-        st.set_der(B.syms[name], vec_expr(B, exprs, d["rows"], d["cols"], st), **({"scale": sp["der_scale"][name]} if name in sp.get("der_scale", {}) else {}))
-    for name, exprs in sp.get("next", []):
-        d = B.decl[name]
-        st.set_next(B.syms[name], vec_expr(B, exprs, d["rows"], d["cols"], st))
+    for key, setter in (("der", st.set_der), ("next", st.set_next)):
+        items = sp.get(key, [])
+        if sp.get("dyn_concat") and not sp.get("der_scale"):
+            # one call on a concatenation of the (non-quadrature) states, matrix-shaped ones flattened column-major
+            grp = [(n, ex) for n, ex in items if B.decl[n]["kind"] == "state"]
+            items = [(n, ex) for n, ex in items if B.decl[n]["kind"] != "state"]
+            if grp:
+                setter(ca.veccat(*[B.syms[n] for n, _ in grp]), ca.vertcat(*[ca.vec(vec_expr(B, ex, B.decl[n]["rows"], B.decl[n]["cols"], st)) for n, ex in grp]))
+        for name, exprs in items:
+            d = B.decl[name]
+            if key == "der":
+                st.set_der(B.syms[name], vec_expr(B, exprs, d["rows"], d["cols"], st), **({"scale": sp["der_scale"][name]} if name in sp.get("der_scale", {}) else {}))
+            else:
+                st.set_next(B.syms[name], vec_expr(B, exprs, d["rows"], d["cols"], st))
     for a in sp.get("alg", []):
         st.add_alg(vec_expr(B, a, len(a), 1, st))
     if "values" not in skip:
